@@ -39,6 +39,17 @@ theorem stub_patch_same_block (ubs : List UB) (h fresh : Nat) (last s : UB)
 example : stubUB [⟨7, 0, 100, none, some 1⟩, ⟨7, 1, 101, some 100, some 2⟩] 9 = some ⟨7, 1, 101, none, some 9⟩ := by
   decide
 
+/-- **a stub cannot be merged**: the guard of `merge_files` refuses every file set whose base
+container is a stub — alone or with any number of patch containers on top (whose blocks are not
+marked), with or without an uncommitted container, however the set was opened (the guard looks
+at the user blocks of ALL containers) -/
+theorem stub_merge_refused (patchFlags : List Bool) (w : Bool) :
+    mergeGuard (true :: patchFlags) w = .error .stub := by
+  simp [mergeGuard]
+
+example : mergeGuard [true] false = .error .stub ∧ mergeGuard [true, false, false, false] false = .error .stub :=
+  ⟨rfl, rfl⟩
+
 /-! ## tree level: the stub has the skeleton of the real record and none of its data -/
 section tree
 open MetadorModel.Tree MetadorModel.Overlay MetadorModel.Single MetadorModel.Listing
